@@ -2,6 +2,7 @@
   C01 — wrapping preserves the text: lines are in-order slices of the input.
 -/
 import Lemmas.WrapText
+import Lemmas.FragEnds
 namespace TW.C01
 
 section
@@ -78,6 +79,60 @@ theorem fill_shortcut_slice (text : Text) :
 -- @audit TW.C01.fill_slow_eq_join
 theorem fill_slow_eq_join (env : Env) (mo : MinimaOracle α) (o : Opts) (text : Text) :
     fillSlow env mo o text = (wrap env mo o text).map (joinWith o.lineEnding.str) := rfl
+
+theorem specLines_slices (o : Opts) (groups : List (List Word)) (idx n : Nat) :
+    ∀ d ∈ specLines o groups idx n, ∃ pre g post, groups = pre ++ g :: post ∧ d.slice = groupSlice g := by
+  induction groups generalizing idx n with
+  | nil => intro d hd; simp [specLines] at hd
+  | cons g gs ih =>
+    intro d hd
+    simp only [specLines] at hd
+    split at hd
+    · next hl =>
+      rcases List.mem_cons.mp hd with rfl | hd
+      · exact ⟨[], g, gs, rfl, by simp [groupSlice, hl]⟩
+      · obtain ⟨pre, g', post, e1, e2⟩ := ih _ _ d hd
+        exact ⟨g :: pre, g', post, by simp [e1], e2⟩
+    · next last hl =>
+      rcases List.mem_cons.mp hd with rfl | hd
+      · exact ⟨[], g, gs, rfl, rfl⟩
+      · obtain ⟨pre, g', post, e1, e2⟩ := ih _ _ d hd
+        exact ⟨g :: pre, g', post, by simp [e1], e2⟩
+
+/-- **4. a slice never ends in a space** — ASCII separator, built-in splitters, every width,
+    `break_words` on or off, both algorithms: words found by the ASCII separator contain no
+    space, so neither do their pieces, and an empty word only occurs at the very beginning of a
+    paragraph. (With the Unicode separator a force-broken word may itself contain a space —
+    the exception the property names.) -/
+-- @audit TW.C01.ascii_no_trailing_space
+theorem ascii_no_trailing_space (env : Env) (mo : MinimaOracle α) (hmo : MoShape mo) (o : Opts)
+    (hsep : o.sep = .ascii) (hb : Builtin o.splitter) (line : Text) (nPrev : Nat) (ds : List LineD)
+    (h : wrapSingleLine env mo o line nPrev = some ds) : ∀ d ∈ ds, d.slice.getLast? ≠ some SP := by
+  unfold wrapSingleLine at h
+  by_cases hc : blen line < o.width ∧ (if nPrev = 0 then o.initialIndent else o.subsequentIndent).isEmpty = true
+  · rw [if_pos hc] at h
+    simp only [Option.some.injEq] at h; subst h
+    intro d hd
+    simp only [List.mem_singleton] at hd; subst hd
+    exact trimEndSp_no_trailing line
+  · rw [if_neg hc] at h
+    unfold wrapSingleLineSlow at h
+    simp only at h
+    split at h
+    · simp at h
+    · next words hp =>
+      obtain ⟨c1, _⟩ := pipeline_contig env o (builtin_inRange _ _ hb) line _ words hp
+      have hfe := pipeline_fragEnds_ascii env o hsep hb line _ words hp
+      split at h
+      · simp at h
+      · next groups hg =>
+        obtain ⟨p1, _, _, _⟩ := wrapAlg_partition mo hmo o.alg words _ groups hg
+        rw [reassemble_eq_spec o line [] groups 0 nPrev (by simp [p1, c1]) rfl] at h
+        simp only [Option.some.injEq] at h; subst h
+        intro d hd
+        obtain ⟨pre, g, post, e1, e2⟩ := specLines_slices o groups 0 nPrev d hd
+        rw [e2]
+        exact groupSlice_no_trailing_sp words hfe pre.flatten g post.flatten (by rw [← p1, e1]; simp)
 
 end
 
